@@ -23,8 +23,10 @@ def _slice_hits(fn, l, rx):
     return False
 
 
-def check(ctx, fn, declared_rx, present_rx, rule="R-GUARD.open", what="declared size vs bytes present"):
-    drx, prx = re.compile(declared_rx), re.compile(present_rx)
+def _guard_lines(fn, drx, prx, fx=None, depth=0):
+    """lines of refusing declared-vs-present comparisons that dominate every successful return of fn; a crate-local
+    helper whose Result is propagated (its call dominates the successful returns and its Err edge cannot reach
+    them) counts when it contains such a comparison itself"""
     oks, _ = ok_return_blocks(fn)
     if not oks:
         oks = set(fn.exits())
@@ -45,6 +47,27 @@ def check(ctx, fn, declared_rx, present_rx, rule="R-GUARD.open", what="declared 
                         refuses = any(not (fn.reachable_from([s], avoid=[sb]) & oks) for s in fn.succ(sb))
                         if dominates and refuses:
                             found.append(st[3])
+    if not found and fx is not None and depth < 2:
+        from rules.pair import err_blocks
+        eb = err_blocks(fn)
+        for b, c in fn.calls():
+            if not (c.get("loc") and fx.has(c["f"]) and "Result<" in fn.ty(c["d"][0])):
+                continue
+            if not all(fn.dominates(b, o) and b != o for o in oks):
+                continue
+            # the Result is examined: some block after the call can only fail
+            reach = fn.reachable_from(fn.succ(b))
+            if not (reach & eb):
+                continue
+            inner = _guard_lines(Fn(fx.raw(c["f"])), drx, prx, fx, depth + 1)
+            if inner:
+                found += ["%s:%s" % (c["f"].rsplit("::", 1)[-1], x) for x in inner]
+    return found
+
+
+def check(ctx, fn, declared_rx, present_rx, rule="R-GUARD.open", what="declared size vs bytes present", fx=None):
+    drx, prx = re.compile(declared_rx), re.compile(present_rx)
+    found = _guard_lines(fn, drx, prx, fx)
     ok = bool(found)
     ctx.obligation(rule, fn.id, what, ok,
                    sample={"fn": fn.id, "declared": declared_rx, "present": present_rx, "guard_lines": found[:3]})
